@@ -2244,10 +2244,17 @@ def translate_class(ix, ci, label, passes=4):
             env = _bind_entry_params(tr, fn, unit, name, {}, selfv)
             fr = Frame(cdef.mod, env, cdef, selfv, name)
             tr.stack.append(name)
+            fell_through = False
             try:
                 tr.exec_block(fn.body, fr)
+                fell_through = True
             except Terminated:
                 pass
+            if name == "fit":
+                # clause "fit returns the estimator itself": every return statement of fit yields `self`
+                bad = ["falls off the end of fit (returns None)"] if fell_through else []
+                bad += ["returns %r" % (r,) for r in fr.returns if not (isinstance(r, R) and r.obj == "self")]
+                unit.fit_returns_not_self = bad
             unit.stored[name] = set(tr.stored_attrs)
             unit.bodies.append((name, tr.out))
         merged = {k: set(v) for k, v in facts.items()}
